@@ -1425,6 +1425,9 @@ DOMNode* DOMDocumentImpl::renameNode(DOMNode* n, const XMLCh* namespaceURI, cons
     if (n->getOwnerDocument() != this)
         throw DOMException(DOMException::WRONG_DOCUMENT_ERR, 0, getMemoryManager());
 
+    if (!name || !isXMLName(name))
+        throw DOMException(DOMException::INVALID_CHARACTER_ERR, 0, getMemoryManager());
+
     switch (n->getNodeType()) {
         case ELEMENT_NODE:
             return ((DOMElementImpl*)n)->rename(namespaceURI, name);
